@@ -1280,8 +1280,38 @@ func (fc *FuncCtx) execSend(fr *Frame, st *State, x *ssa.Send) {
 	} else {
 		fc.u.Assumptions["a send does not hit a closed channel (checked only in functions whose contract sets `flag sendclosed`)"] = true
 	}
+	fc.chanSendObligation(fr, st, x.Chan, fc.val(fr, st, x.X), x.Pos())
 	fc.blockingOp(fr, st, "send", x, ch.T, x.Pos())
 	fc.bumpEvent(st, "sends", ch.T, "true")
+}
+
+// chanSendObligation / chanRecvFact: `channel T.f carries e` is proved at sends and assumed at receives.
+func (fc *FuncCtx) chanSendObligation(fr *Frame, st *State, chv ssa.Value, val Value, pos token.Pos) {
+	d := fc.eng.chanDeclFor(chv)
+	if d == nil {
+		return
+	}
+	ev := fc.newEnv(fr, st, fr.entry)
+	ev.pkg = d.Pkg
+	ev.fr = nil
+	ev.vars["value"] = val
+	g := ev.evalBool(d.E)
+	fc.oblige(fr, st, "channel."+d.Type+"."+d.Field, "carries", g, pos, "value sent on "+d.Type+"."+d.Field+" satisfies the channel contract: "+d.Src)
+}
+
+func (fc *FuncCtx) chanRecvFact(fr *Frame, st *State, chv ssa.Value, val Value, cond string) {
+	d := fc.eng.chanDeclFor(chv)
+	if d == nil {
+		return
+	}
+	ev := fc.newEnv(fr, st, fr.entry)
+	ev.pkg = d.Pkg
+	ev.fr = nil
+	ev.vars["value"] = val
+	if g, ok := fc.tryEvalBool(ev, d.E); ok {
+		fc.u.fact(st.pc, tImp(cond, g))
+		fc.u.Assumptions["channel contract of "+d.Type+"."+d.Field+" (every value sent on it satisfies `"+d.Src+"`: proved at each send through the field; no send through an alias: structural obligation)"] = true
+	}
 }
 
 func (fc *FuncCtx) execRecv(fr *Frame, st *State, x *ssa.UnOp) Value {
@@ -1291,8 +1321,11 @@ func (fc *FuncCtx) execRecv(fr *Frame, st *State, x *ssa.UnOp) Value {
 	et := x.X.Type().Underlying().(*types.Chan).Elem()
 	v := fc.freshValue(st, et, "recv")
 	if x.CommaOk {
-		return TupleV{E: []Value{v, Scalar{fc.u.fresh("recv.ok", "Bool"), "Bool", types.Typ[types.Bool]}}}
+		okv := fc.u.fresh("recv.ok", "Bool")
+		fc.chanRecvFact(fr, st, x.X, v, okv)
+		return TupleV{E: []Value{v, Scalar{okv, "Bool", types.Typ[types.Bool]}}}
 	}
+	// without comma-ok a zero value from a closed channel cannot be told apart: no fact
 	return v
 }
 
@@ -1333,6 +1366,11 @@ func (fc *FuncCtx) execSelect(fr *Frame, st *State, x *ssa.Select) Value {
 			fc.publish(st, s.Send.Type())
 			// the value offered on this case (call-site obligations on sends apply to select cases too)
 			fc.atCallClauses(fr, st, x, "send", "send", map[string]Value{"ch": ch, "value": fc.val(fr, st, s.Send)}, x.Pos())
+			fc.chanSendObligation(fr, st, s.Chan, fc.val(fr, st, s.Send), x.Pos())
+			if fr.con != nil && fr.con.Flags["sendclosed"] != "" {
+				// a send case on a closed channel panics as soon as the select evaluates it
+				fc.oblige(fr, st, "safety.sendclosed", "", tNot("(select "+cl+" "+ch.T+")"), x.Pos(), "send case of a select on a channel that is not closed")
+			}
 			fc.bumpEvent(st, "sends", ch.T, taken)
 		} else {
 			fc.bumpEvent(st, "recvs", ch.T, taken)
